@@ -11,6 +11,7 @@ import (
 
 func init() {
 	verifHarnesses["VerifC16_DiscoveryCache"] = VerifC16_DiscoveryCache
+	verifHarnesses["VerifC16_GeneratorKeepsNoUnsynchronisedState"] = VerifC16_GeneratorKeepsNoUnsynchronisedState
 }
 
 type kitDiscoveryIdP struct{ body string }
@@ -48,6 +49,38 @@ func VerifC16_DiscoveryCache() {
 		wg.Add(1)
 		u := url + string(rune('a'+i%2))
 		go func() { defer wg.Done(); call(u); call(u) }()
+	}
+	wg.Wait()
+}
+
+// VerifC16_GeneratorKeepsNoUnsynchronisedState (shared-write audit): one generator per filter
+// serves every request goroutine of that filter; drawing identifiers must not write, without a
+// lock, to anything that outlives the call (a scratch buffer, a counter, a cached value).
+// Natively: many goroutines draw from one generator under the race detector.
+func VerifC16_GeneratorKeepsNoUnsynchronisedState() {
+	g := NewRandomGenerator()
+	if vn.Symbolic() {
+		vn.WatchSharedWrites()
+		_ = g.GenerateSessionID()
+		_ = g.GenerateNonce()
+		_ = g.GenerateState()
+		_ = g.GenerateCodeVerifier()
+		vn.Unwatch()
+		vn.Cover("C16/generator-audited", true)
+		return
+	}
+	var wg sync.WaitGroup
+	for i := 0; i < 8; i++ {
+		wg.Add(1)
+		go func() {
+			defer wg.Done()
+			for j := 0; j < 200; j++ {
+				_ = g.GenerateSessionID()
+				_ = g.GenerateNonce()
+				_ = g.GenerateState()
+				_ = g.GenerateCodeVerifier()
+			}
+		}()
 	}
 	wg.Wait()
 }
